@@ -68,10 +68,10 @@ package filterstorage
 //@   ensures err != nil ==> resp == nil
 //@ func (*Default).refreshServices
 //@   modifies heap
-//@   preserves Default.*, allmaps(ruleLists), rulelist.Refreshable.*, rulelist.filter.*
+//@   preserves Default.*, allmaps(ruleLists), rulelist.Refreshable.*, rulelist.filter.*, indexData.*, allelems(*indexData)
 //@ func (*Default).refreshSafeSearch
 //@   modifies heap
-//@   preserves Default.*, allmaps(ruleLists), rulelist.Refreshable.*, rulelist.filter.*
+//@   preserves Default.*, allmaps(ruleLists), rulelist.Refreshable.*, rulelist.filter.*, indexData.*, allelems(*indexData)
 
 //@ import agdhttp github.com/AdguardTeam/AdGuardDNS/internal/agdhttp
 //@ fun idOK(key string) bool
@@ -121,3 +121,5 @@ package filterstorage
 //@   loop 1 invariant forall id filter.ID :: has(newRuleLists, id) ==>
 //@             (newRuleLists[id] != nil && fresh(newRuleLists[id])) || (old(has(s.ruleLists, id)) && newRuleLists[id] == old(s.ruleLists[id]))
 //@   loop 1 invariant forall id filter.ID :: has(s.ruleLists, id) == old(has(s.ruleLists, id)) && s.ruleLists[id] == old(s.ruleLists[id])
+//@   loop 1 invariant forall k int :: 0 <= k && k <= #i ==> has(newRuleLists, fls[k].id) || !has(s.ruleLists, fls[k].id)
+//@   atcall resetRuleLists assert no-listed-filter-is-dropped: forall k int :: 0 <= k && k < len(fls) ==> has(newRuleLists, fls[k].id) || !has(s.ruleLists, fls[k].id)
